@@ -82,6 +82,15 @@ def fallbackZone : TZ := ⟨3600, [(0, 0)]⟩
 theorem C11_unrestricted_is_false :
     getJdByEpoch fallbackZone (-1800) = J1970 ∧ ¬ ((intervalByJd fallbackZone J1970).1 ≤ -1800) := by decide
 
+/-- … and so is the unrestricted span clause (open known finding KF-jdrange-date-goes-back): clocks go
+    from 00:01 back to 23:01 of the day before at instant 60; the span [30, 120) has instants on both
+    days, the reported range is empty — the monotonicity hypothesis of `C11_jd_range_exact_partial`
+    cannot be dropped -/
+def dateGoesBackZone : TZ := ⟨0, [(60, -3600)]⟩
+theorem C11_jd_range_unrestricted_is_false :
+    getJdByEpoch dateGoesBackZone 30 = J1970 ∧ getJdByEpoch dateGoesBackZone 60 = J1970 - 1 ∧
+    getJdRange dateGoesBackZone 30 120 = (J1970, J1970) := by decide
+
 example : intervalByJd fallbackZone J1970 = (0, 86400) := by decide
 example : intervalByJd (⟨3600, [(100000, 7200)]⟩ : TZ) 2440589 = (82800, 165600) := by decide   -- a 23-hour day
 
